@@ -348,8 +348,16 @@ Final(c) == Pass3(c, Annotated(c))
 
 \* ---- GIRWriter ------------------------------------------------------------------------------
 \* parameter k of the case is emitted at index k-1: the instance parameter of a method has been
-\* moved to <instance-parameter> and a trailing GError** has been removed before indices are computed
-EmittedIndex(c, k) == k - 1
+\* moved to <instance-parameter> and a trailing GError** has been removed before indices are computed.
+\* Some declaration shapes are emitted TWICE from shared return / parameter objects (case fields shape, copy):
+\*   "movedto": a function named like a type prefix without the underscore (foo_recs_x next to FooRec) is kept as
+\*              <function> (copy 2: self is parameter 0) and cloned into a <method moved-to=...> (copy 1);
+\*   "vfunc":   a class-structure slot becomes a <virtual-method> (copy 1) and stays a <field><callback> of the
+\*              class structure (copy 2: self is parameter 0).
+\* Every index counts among the <parameter>s of the element it is written on.
+Shape(c) == IF "shape" \in DOMAIN c THEN c.shape ELSE "plain"
+Copy(c)  == IF "copy" \in DOMAIN c THEN c.copy ELSE 1
+EmittedIndex(c, k) == IF Copy(c) = 2 THEN k ELSE k - 1
 
 Write(c, nodes, i) ==
   LET n     == nodes[i]
